@@ -576,7 +576,9 @@ func (t *Table) Update(input *types.UpdateItemInput) (map[string]*types.Item, er
 		item = copyItem(input.Key)
 	}
 
-	oldItem := copyItem(item)
+	// the update is applied to a copy, the stored item is replaced only when every check has passed
+	oldItem := item
+	item = copyItem(item)
 
 	err = t.interpreterUpdate(interpreter.UpdateInput{
 		TableName:  t.Name,
@@ -586,6 +588,10 @@ func (t *Table) Update(input *types.UpdateItemInput) (map[string]*types.Item, er
 		Aliases:    input.ExpressionAttributeNames,
 	})
 	if err != nil {
+		return nil, err
+	}
+
+	if err := t.validateIndexKeys(item); err != nil {
 		return nil, err
 	}
 
